@@ -10,7 +10,7 @@ Driver for C12.
   afterwards, new listener calls, new TryPass results.
 * `oracle` — reads the **implementation's** trace and judges it: every change of the state word is one
   won CAS on a legal edge; every won CAS is reported to the listeners exactly once, by the winner, with
-  the right `prev`; `probeNum = 0`: a TryPass returns true only by reading Closed or by winning
+  the right `prev` (the order in which different threads' listener calls arrive is not judged); `probeNum = 0`: a TryPass returns true only by reading Closed or by winning
   Open→HalfOpen; no Open→HalfOpen before `openedAt + timeout` — except inside the classified windows
   of the known findings (`known:<key>`).
 
@@ -308,7 +308,8 @@ def stepOracle (s : OD) (ts : List String) (line : String) : OD × Option String
       | some w => (s, some ("bad " ++ w))
       | none =>
         if ¬ o.owed.isEmpty then (s, some s!"bad transition {noteS (o.owed.headD ⟨.closed, .closed, 0⟩)} was never reported")
-        else if o.log ≠ o.hist then (s, some "known:listener-order")
+        -- the order in which different threads' calls arrive is not part of the property (exactly once, by the
+        -- winner, with the right prev is): a log that is a reordering of the CAS history is fine
         else (s, some "ok")
     | _, _ => (s, some "bad-op")
   | ["final"] =>
@@ -324,14 +325,14 @@ def stepOracle (s : OD) (ts : List String) (line : String) : OD × Option String
 
 /-- `ghost` mode: the verdicts the oracle should give, computed from the model's monitor fields (the ones the
     theorems of `Sentinel.Props.C12` speak about) instead of from the trace: used by the check to validate the
-    oracle's attribution of early admissions / reordered notifications to the known findings -/
+    oracle's attribution of early admissions to the known findings -/
 def stepGhost (s : DS) (ts : List String) (line : String) : DS × Option String :=
   let (s', r) := stepModel s ts line
   match ts, r with
   | _, some "bad-op" => (s', r)
   | "sched" :: _, some _ => (s', some "ok")
   | ["results"], some _ => (s', some "ok")
-  | ["log"], some _ => (s', some (if s'.sh.log ≠ s'.sh.hist then "known:listener-order" else "ok"))
+  | ["log"], some _ => (s', some "ok")
   | ["final"], some _ =>
       (s', some (if s'.sh.earlyOut then "bad earlyOut"
                  else if s'.sh.earlyNoDl then "known:open-without-deadline"
